@@ -6,7 +6,7 @@
 #include "pv.h"
 
 #define NSLOT 6
-typedef struct slot { bool live; polyseed_data* s; pv_mseed m; } slot;
+typedef struct slot { bool live; polyseed_data* s; pv_mseed m; int nblocks; } slot;      /* nblocks: what the constructor kept from the allocator (>= 1; one today) */
 static slot S[NSLOT];
 static unsigned M_mask; static int M_tag;
 static char* g_out; static uint8_t* g_img; static uint8_t* g_key;
@@ -26,6 +26,7 @@ static void check_tags(const char* op) {
 static int free_slot(void) { for (int i = 0; i < NSLOT; ++i) if (!S[i].live) return i; return -1; }
 static int live_slot(pv_rng* r) { int c[NSLOT], n = 0; for (int i = 0; i < NSLOT; ++i) if (S[i].live) c[n++] = i; return n ? c[pv_randn(r, (uint32_t)n)] : -1; }
 static int nlive(void) { int n = 0; for (int i = 0; i < NSLOT; ++i) n += S[i].live; return n; }
+static int nblocks_held(void) { int n = 0; for (int i = 0; i < NSLOT; ++i) if (S[i].live) n += S[i].nblocks; return n; }
 
 static void observe_slot(int i, const char* after, bool deep) {
     if (!S[i].live) return;
@@ -35,9 +36,9 @@ static void observe_slot(int i, const char* after, bool deep) {
 }
 static void observe_others(int except, const char* after, pv_rng* r) {
     for (int i = 0; i < NSLOT; ++i) if (i != except && S[i].live) observe_slot(i, after, pv_randn(r, 8) == 0);
-    if (!g_libc_alloc && pv_ledger_live() != nlive()) vio(after, "ledger", "%d blocks live, the model holds %d seeds", pv_ledger_live(), nlive());
+    if (!g_libc_alloc && pv_ledger_live() != nblocks_held()) vio(after, "ledger", "%d blocks live, the %d seeds of the model took %d when they were made", pv_ledger_live(), nlive(), nblocks_held());
 }
-static void put(int i, polyseed_data* s, const pv_mseed* m) { S[i].live = true; S[i].s = s; S[i].m = *m; g_had_ctor = true; }
+static void put(int i, polyseed_data* s, const pv_mseed* m) { int before = nblocks_held(); S[i].live = true; S[i].s = s; S[i].m = *m; S[i].nblocks = g_libc_alloc ? 1 : pv_ledger_live() - before; if (S[i].nblocks < 1) S[i].nblocks = 1; g_had_ctor = true; }
 static void seq(uint64_t v) { g_seqhash = pv_mix(g_seqhash, v); }
 
 /* ---- operations (each returns after comparing with the model) */
@@ -153,7 +154,7 @@ static void op_free(pv_rng* r, bool null) {
     if (null) { pv_api_free(NULL); if (pv_ev_count(PV_EV_FREE) || pv_ev_count(PV_EV_MEMZERO)) vio("free", "null", "free(NULL) reached the dependencies"); seq(0x81); return; }
     int i = live_slot(r); if (i < 0) return;
     pv_api_free(S[i].s); check_tags("free"); seq(0x80); PV_COUNT("ops.free", 1);
-    if (pv_ev_count(PV_EV_FREE) != 1) vio("free", "injected-free-not-called", "polyseed_free called the injected free %d times (table: alloc %s, free injected)", pv_ev_count(PV_EV_FREE), g_libc_alloc ? "NULL" : "injected");
+    if (g_libc_alloc ? pv_ev_count(PV_EV_FREE) < 1 : pv_ev_count(PV_EV_FREE) != S[i].nblocks) vio("free", "injected-free-not-called", "polyseed_free called the injected free %d times (table: alloc %s, free injected)", pv_ev_count(PV_EV_FREE), g_libc_alloc ? "NULL" : "injected");
     for (int k = 0; k < pv_w->nev; ++k) if (pv_w->ev[k].kind == PV_EV_FREE && !g_libc_alloc && (pv_w->ev[k].a & (PV_FREE_FOREIGN | PV_FREE_DOUBLE))) vio("free", "ledger", "foreign or double free");      /* with libc malloc the ledger knows no block (ASan watches that path) */
     S[i].live = false; S[i].s = NULL; g_state_changed = true;
 }
@@ -287,7 +288,7 @@ static void run_endur(uint64_t idx, pv_rng* rng) {
         guard_end("endurance-step", kind == 5);
         PV_COUNT("evaluations", 1);
         if (look && kind != 5) observe_slot(0, KN[kind], (k % 1024) == 1023 || k == N - 1);
-        if (!g_libc_alloc && look && pv_ledger_live() != nlive()) vio(KN[kind], "ledger", "%d blocks live after %ld repetitions, the model holds %d seeds", pv_ledger_live(), k + 1, nlive());
+        if (!g_libc_alloc && look && pv_ledger_live() != nblocks_held()) vio(KN[kind], "ledger", "%d blocks live after %ld repetitions, the seeds of the model took %d", pv_ledger_live(), k + 1, nblocks_held());
     }
     if (!g_bad) { pv_countf(1, "endurance.%s.%ld_repetitions", KN[kind], N); PV_DISTINCT("nontrivial", pv_mix(0xe0d, idx)); }
     M_mask = M_mask & 7; op_enable(rng, 0);
